@@ -92,6 +92,7 @@ type Interp struct {
 	sliceLimit     int64
 	cfgExpectEnds  []string
 	concreteInputs map[string]uint64
+	wrapped        map[*Value]Iface
 }
 
 func (in *Interp) info(fn *ssa.Function) *fnInfo {
@@ -793,12 +794,37 @@ func (in *Interp) storeTo(fr *Frame, p Value, v Value) {
 
 func (in *Interp) symLoad(p *SymRef) Value {
 	n := len(p.elems)
+	if n > 8 {
+		// balanced decision tree over the index bits: depth log2(n), and constant
+		// runs of a table collapse through ite(c,x,x)=x
+		k := 0
+		for (1 << uint(k)) < n {
+			k++
+		}
+		return in.symLoadTree(p, 0, k)
+	}
 	res := p.elems[n-1].(*Term)
 	for i := n - 2; i >= 0; i-- {
 		c := in.ts.Eq(p.idx, in.ts.Const(uint64(i), 64))
 		res = in.ts.Ite(c, p.elems[i].(*Term), res)
 	}
 	return res
+}
+
+func (in *Interp) symLoadTree(p *SymRef, lo, k int) *Term {
+	n := len(p.elems)
+	if lo >= n {
+		return p.elems[n-1].(*Term) // unreachable (index is in range)
+	}
+	if k == 0 {
+		return p.elems[lo].(*Term)
+	}
+	half := 1 << uint(k-1)
+	if lo+half >= n {
+		return in.symLoadTree(p, lo, k-1)
+	}
+	bit := in.ts.Eq(in.ts.Extract(p.idx, k-1, k-1), in.ts.Const(1, 1))
+	return in.ts.Ite(bit, in.symLoadTree(p, lo+half, k-1), in.symLoadTree(p, lo, k-1))
 }
 
 func isScalarElem(t types.Type) bool {
